@@ -134,7 +134,8 @@ def impl(c):
             return '!' + errname(e)
     if kind in ('next', 'prev'):
         try:
-            r = n.next(a[4]) if kind == 'next' else n.previous(a[4])
+            # asked twice of the same receiver, the first answer moved in place in between
+            r = common.twice(lambda: [n.next(a[4]) if kind == 'next' else n.previous(a[4])])[0]
             s = _show(r)
         except Exception as e:
             s = '!' + errname(e)
